@@ -712,7 +712,17 @@ func Harness_app_maxdepth() {
 	cmd := cmds[verifChoose("command", len(cmds))]
 	verifLabel("site", strings.Join(cmd, " "))
 	book := "top:\n  mid: 2\nmid:\n  low: 3\nlow:\n  x: 1\n" // top -> mid -> low -> x: 3 references
-	args := []string{"--logfile=" + verifFile("log", "2021/01/01:\n  top: 1\n"), "--database=" + verifFile("db", book)}
+	// the files are named through the three sources too; a '$' in a path is part of the path
+	args := []string{"--database=" + verifFile("db$HOME", book)}
+	switch verifChoose("logfile-source", 3) {
+	case 0:
+		args = append(args, "--logfile="+verifFile("my$log", "2021/01/01:\n  top: 1\n"))
+	case 1:
+		verifSetenv("HR_LOGFILE", verifFile("env$log", "2021/01/01:\n  top: 1\n"))
+	case 2:
+		args = append(args, "--logfile="+verifFile("flag$log", "2021/01/01:\n  top: 1\n"))
+		verifSetenv("HR_LOGFILE", verifMissingFile("env-log"))
+	}
 	vals := []string{"", "1", "2", "3", "4", "10"}
 	fi, ei, ci := verifChoose("flag", len(vals)), verifChoose("env", 3), verifChoose("config", 3)
 	eff := "10"
